@@ -852,6 +852,9 @@ func runCheck(id, tier string) int {
 	if tot.Assume == nil {
 		tot.Assume = []string{}
 	}
+	if tot.Samples == nil {
+		tot.Samples = []json.RawMessage{}
+	}
 	ev := map[string]interface{}{
 		"property_id": id, "tier": tier, "seed": seed, "level": "exploration", "coverage": cov,
 		"assumptions": tot.Assume, "wall_s": wall, "violations": len(newViol),
